@@ -34,6 +34,7 @@ def run(ctx):
     R4 = rep.rule('C01.R4', 'OwnedKey / BorrowedKey / dyn Key hash the same leaf sequence and compare all key fields', floor=7)
     R5 = rep.rule('C01.R5', 'insert returns the keep-first winner; add_asset/add_any/Cache::insert return that result', floor=5)
     R6 = rep.rule('C01.R6', 'CacheEntry is a Box newtype and is the map value type; inner() derefs the box', floor=4)
+    S1 = rep.rule('C07.R1', 'every access to the stored value is classified: read under a guard / get behind the panic / write in the guard region / owned (shared with C07)', floor=2)
     R7 = rep.rule('C01.R7', 'get_shard and get_shard_mut have the same normal form; shards are indexed only there', floor=2)
     rep.assumptions += [
         'user Drop impls of stored values, Hash/Eq of key types and Source implementations do not re-enter the same cache while a shard lock is held',
@@ -46,7 +47,10 @@ def run(ctx):
         r5(R5, cfg, F)
         r6(R6, cfg, F)
         r7(R7, cfg, F)
-        for r in (R1, R2, R3, R4, R5, R6, R7):
+        # "the handle stays valid and READABLE": every access to the stored value is lock-disciplined
+        from c07 import r1 as value_access_discipline
+        value_access_discipline(S1, cfg, F, 'hot-reloading' in ctx.cfg_features[cfg])
+        for r in (R1, R2, R3, R4, R5, R6, R7, S1):
             r.finish_cfg(cfg)
 
 
